@@ -11,9 +11,30 @@ from lint import facts, records, ir
 LEVEL = 'other'
 
 
+def bit_array_copies(run):
+    """hand-written copies of the bit array (none today: the copies are the implicit memberwise ones) are decided bit by bit for every
+    capacity by the refinement rule of C20.e -- the copy is the same set as its source --, not by reading initialiser lists"""
+    from rules import c20 as _c20
+    decided = False
+    for v in facts.variants(run.tier)[:1]:
+        F = facts.load('w_bitarrays', 'PS', v, 'c++11')
+        hand = [fn for fn in F.find('BitArrayT') if fn.body is not None and not fn.d.get('implicit') and not fn.d.get('defaulted')
+                and ((fn.kind == 'ctor' and fn.d.get('ctorkind') in ('copy', 'move')) or fn.m == 'operator=')]
+        if hand:
+            run.guard('bit array refinement', _c20.refinement, run, F)
+            decided = True
+        facts.drop(F)
+    if decided:
+        run.relabel('C20.e', 'C17.b')
+    return decided
+
+
 def run(run):
     jobs = [(w, c, v) for w in ('w_core', 'w_pay') for c in facts.configs(run.tier) for v in facts.variants(run.tier)]
     facts.prefetch(jobs)
+    bits_decided = bit_array_copies(run)
+    elsewhere = (lambda rec: 'decided bit by bit for every capacity (C20.e refinement: the copy is the same set as its source)'
+                 if bits_decided and rec['name'].startswith('ffsm2::detail::BitArrayT<') else None)
     for (w, c, v) in jobs:
         F = facts.load(w, c, v)
         run.require(F.unknown == 0, 'unknown AST nodes in %s' % F.label())
@@ -21,7 +42,7 @@ def run(run):
         run.count('records', len(F.records))
         run.count('units')
         run.guard('definite init', records.definite_init, run, 'C17.a', F)
-        run.guard('copy ctor coverage', records.copy_ctor_coverage, run, 'C17.b', F)
+        run.guard('copy ctor coverage', records.copy_ctor_coverage, run, 'C17.b', F, elsewhere)
         run.guard('no mutable statics', records.no_mutable_statics, run, 'C17.d', F)
         run.guard('externals', records.externals, run, 'C17.d', F)
         run.guard('address independence', records.address_independence, run, 'C17.e', F)
